@@ -268,9 +268,40 @@ theorem joint_instance_views_agree (size threshold dealer ma mb : Nat) (hd : dea
     ba1 ba2 ba3 bb1 bb2 bb3 n1 n2 n3
 
 open Proofs.DkgCommute Proofs.DkgAgree in
-/-- **from the instances to Joint-Feldman's `End`** (partial: conditional on the two instances whose dealer is one
-    of the two participants): two participants whose `n` instances have pairwise the same public view — which
-    `joint_instance_views_agree` proves for every dealer other than the two participants themselves — get from `End`
+/-- **the instance of an honest dealer, seen by the dealer itself and by an honest receiver**: the dealer's own
+    instance (`DS`: it holds its vector `v`, answers every complaint at once; only the at most `t` participants of `K`
+    ever complain) and a receiver's instance under the hypotheses of `honest_dealer_never_disqualified` (C08: the
+    vector and the share arrive in the first round, answers are valid, complainers are in `K`) end with the same
+    public view: the dealer is qualified at both, with the same vector (`hv`: the vector the receiver parsed from the
+    dealer's broadcast is the dealer's) -/
+theorem honest_dealer_instance_views_agree (H : Honest O) (K : Finset Nat) (v : O.Vec) (hv : H.v0 = v)
+    (sD sR : St O) (hD : DS K v sD) (hKD : K.card ≤ sD.threshold) (hR : HD H sR)
+    (hst0 : sR.sharesTimeout = false) (hct0 : sR.complaintsTimeout = false) (hKR : K.card ≤ sR.threshold)
+    (hk0 : keysIn K sR) (rd1 rd2 rd3 rr1 rr2 rr3 : List Dl)
+    (k1 : ∀ o m, Dl.bcast o m ∈ rd1 → m.headD 0 = tagComplaint → o ∈ K)
+    (k2 : ∀ o m, Dl.bcast o m ∈ rd2 → m.headD 0 = tagComplaint → o ∈ K)
+    (k3 : ∀ o m, Dl.bcast o m ∈ rd3 → m.headD 0 = tagComplaint → o ∈ K)
+    (ok1 : RoundOK' H K sR false rr1) (ok2 : RoundOK' H K sR false rr2) (ok3 : RoundOK' H K sR true rr3)
+    (hvec : ∃ e ∈ rr1, ∃ d, ∀ t, CfgCT sR false t → classify t e = .vec d)
+    (hshare : ∃ e ∈ rr1, ∃ d, ∀ t, CfgCT sR false t → classify t e = .share d)
+    (hans : ∀ k ∈ K, ∃ a, (∃ e ∈ rr1, ∀ t, CfgCT sR false t → classify t e = .ans k (some a)) ∨
+      (∃ e ∈ rr2, ∀ t, CfgCT sR false t → classify t e = .ans k (some a)) ∨
+      (∃ e ∈ rr3, ∀ t, CfgCT sR true t → classify t e = .ans k (some a))) :
+    pview (final sD rd1 rd2 rd3) = pview (final sR rr1 rr2 rr3) := by
+  rw [dealer_side_view K v sD hD hKD rd1 rd2 rd3 k1 k2 k3,
+    honest_dealer_view H K sR hR hst0 hct0 hKR hk0 rr1 rr2 rr3 ok1 ok2 ok3 hvec hshare hans, hv]
+
+open Proofs.DkgCommute Proofs.DkgAgree in
+/-- non-vacuity of the dealer-side hypothesis `DS`: it holds right after a successful `Start` of the dealer -/
+theorem dealer_instance_after_start (K : Finset Nat) (size threshold me : Nat) (seed : Bytes) (s' : St O) (outs : List Out)
+    (h : Dkg.start ({ size := size, threshold := threshold, me := me, dealer := me } : St O) seed = (s', outs, .ok)) :
+    ∃ a, DS K (O.vecOfPoly size a) s' := ds_after_start K size threshold me seed s' outs h
+
+open Proofs.DkgCommute Proofs.DkgAgree in
+/-- **from the instances to Joint-Feldman's `End`** (partial: the per-instance hypotheses are not yet composed into
+    one statement about a Joint-Feldman execution): two participants whose `n` instances have pairwise the same public
+    view — which `joint_instance_views_agree` proves for every dealer other than the two participants themselves, and
+    `honest_dealer_instance_views_agree` for the two instances they deal themselves — get from `End`
     the same public result: both fail (too many disqualified dealers, or an identity group key), or both hold the same
     group public key and the same vector of public key shares, each with its own combined private share (`End` fails
     privately at a participant only if that combined share is zero) -/
@@ -428,3 +459,5 @@ end Props.C07
 #print axioms Props.C07.joint_irrelevant_broadcasts_ignored
 #print axioms Props.C07.joint_instance_views_agree
 #print axioms Props.C07.joint_end_agrees_given_instances_partial
+#print axioms Props.C07.honest_dealer_instance_views_agree
+#print axioms Props.C07.dealer_instance_after_start
